@@ -227,6 +227,24 @@ func (g *G) coef() *big.Int {
 			c.Quo(c, pow10(g.pick(30)))
 		}
 		return c
+	case 5:
+		// word-structured coefficients: an arbitrary high word over a low word of all zeros / all ones / one, and small
+		// multiples of high powers of two (2^111, 2^112, 3*2^111, 2^113 ...), where a test that looks at one word only,
+		// or at the wrong bit of the high word, goes wrong
+		if g.chance(0.5) {
+			hi := g.r.Uint64() % 0x0002_8000_0000_0000
+			if g.chance(0.3) {
+				hi = uint64(1) << uint(g.pick(50))
+			}
+			lo := []uint64{0, 0, 1, ^uint64(0)}[g.pick(4)]
+			c := new(big.Int).Lsh(new(big.Int).SetUint64(hi), 64)
+			return c.Add(c, new(big.Int).SetUint64(lo))
+		}
+		c := new(big.Int).Lsh(big.NewInt(int64(1+g.pick(5))), uint(96+g.pick(18)))
+		if c.Cmp(cmax) > 0 {
+			c.Set(cmax)
+		}
+		return c
 	}
 	return g.coefLen(1 + g.pick(35))
 }
